@@ -21,6 +21,12 @@ Import ListNotations.
 
 Inductive outcome := Absent | Succeed | Failr.
 Inductive cpoint := Never | Before | InCond | InThen | InRollback.
+(* How the harness realises "the caller's context ends" at the chosen point:
+   an explicit cancel, the caller's deadline passing, or the transaction's own
+   ttl being used up by the step.  The model is independent of the cause: a
+   Derived context observes all three, a Detached one (fresh ttl, no link to
+   the caller) observes none. *)
+Inductive cause := ByCancel | ByDeadline | ByTtl.
 Inductive step := SCond | SThen | SRollback.
 Inductive ctxkind := Derived | Detached.
 Inductive result := RNil | RCondErr | RThenErr.
@@ -65,31 +71,43 @@ Definition cancelled_after (cp : cpoint) (s : step) : bool :=
 Definition sees (k : ctxkind) (b : bool) : bool :=
   match k with Derived => b | Detached => false end.
 
-Definition mk (cp : cpoint) (s : step) (fl : bool) (k : ctxkind) : ev :=
-  mkEv s fl k (sees k (cancelled_before cp s)) (sees k (cancelled_after cp s)).
+(* is [s] the step at which the caller's context ends? *)
+Definition at_point (cp : cpoint) (s : step) : bool :=
+  match cp, s with
+  | InCond, SCond | InThen, SThen | InRollback, SRollback => true
+  | _, _ => false
+  end.
+Definition is_ttl (ca : cause) : bool := match ca with ByTtl => true | _ => false end.
+
+(* Every step context is a WithTimeout(_, ttl): a step that itself outlives the
+   ttl (cause ByTtl, at the chosen point) finds its own context expired on exit,
+   whatever the context's link to the caller. *)
+Definition mk (cp : cpoint) (ca : cause) (s : step) (fl : bool) (k : ctxkind) : ev :=
+  mkEv s fl k (sees k (cancelled_before cp s))
+       (if is_ttl ca && at_point cp s then true else sees k (cancelled_after cp s)).
 
 Definition failed (o : outcome) : bool := match o with Failr => true | _ => false end.
 
 (* utils.Txn.  [cnd] is never Absent in Go (a nil cond would panic); the model
    treats Absent cond like the Go code would treat a cond returning nil only in
    the sense that callers never pass it; theorems quantify over cnd <> Absent. *)
-Definition txn (cnd thn rb : outcome) (cp : cpoint) : list ev * result :=
-  let e_cond := [mk cp SCond false Derived] in
+Definition txn (cnd thn rb : outcome) (cp : cpoint) (ca : cause) : list ev * result :=
+  let e_cond := [mk cp ca SCond false Derived] in
   let cond_err := failed cnd in
   let then_runs := negb cond_err && negb (outcome_eqb thn Absent) in
   let then_kind := if outcome_eqb rb Absent then Detached else Derived in
-  let e_then := if then_runs then [mk cp SThen false then_kind] else [] in
+  let e_then := if then_runs then [mk cp ca SThen false then_kind] else [] in
   let then_err := then_runs && failed thn in
   let res := if cond_err then RCondErr else if then_err then RThenErr else RNil in
   let rb_runs := (cond_err || then_err) && negb (outcome_eqb rb Absent) in
-  let e_rb := if rb_runs then [mk cp SRollback cond_err Detached] else [] in
+  let e_rb := if rb_runs then [mk cp ca SRollback cond_err Detached] else [] in
   (e_cond ++ e_then ++ e_rb, res).
 
 (* utils.PCR = Txn(prepare, commit, fun byCond => if !byCond then rollback else nil).
    The inner rollback closure is what the harness observes, so the wrapper's
    call with byCond = true produces no observable event. *)
-Definition pcr (prep com rb : outcome) (cp : cpoint) : list ev * result :=
-  let '(evs, res) := txn prep com Succeed cp in
+Definition pcr (prep com rb : outcome) (cp : cpoint) (ca : cause) : list ev * result :=
+  let '(evs, res) := txn prep com Succeed cp ca in
   let evs' := flat_map (fun e =>
       match who e with
       | SRollback => if flag e then [] else [mkEv SRollback false (kind e) (c_entry e) (c_exit e)]
@@ -99,12 +117,12 @@ Definition pcr (prep com rb : outcome) (cp : cpoint) : list ev * result :=
 
 (* ---- cases of the correspondence check ---- *)
 Record case := mkCase {
-  is_pcr : bool; c_cond : outcome; c_then : outcome; c_rb : outcome; c_cp : cpoint;
+  is_pcr : bool; c_cond : outcome; c_then : outcome; c_rb : outcome; c_cp : cpoint; c_cause : cause;
   obs_evs : list ev; obs_res : result }.
 
 Definition model_of (c : case) : list ev * result :=
-  if is_pcr c then pcr (c_cond c) (c_then c) (c_rb c) (c_cp c)
-  else txn (c_cond c) (c_then c) (c_rb c) (c_cp c).
+  if is_pcr c then pcr (c_cond c) (c_then c) (c_rb c) (c_cp c) (c_cause c)
+  else txn (c_cond c) (c_then c) (c_rb c) (c_cp c) (c_cause c).
 
 Fixpoint evs_eqb (l1 l2 : list ev) : bool :=
   match l1, l2 with
@@ -122,7 +140,7 @@ Definition count_step (s : step) (l : list ev) : nat :=
 Definition any_failed (cnd thn : outcome) : bool :=
   failed cnd || (negb (failed cnd) && failed thn).
 
-Definition txn_ok (cnd thn rb : outcome) (evs : list ev) (res : result) : bool :=
+Definition txn_ok (cnd thn rb : outcome) (ca : cause) (evs : list ev) (res : result) : bool :=
   (* then runs iff cond succeeded and then present; never more than once *)
   Nat.eqb (count_step SThen evs)
           (if negb (failed cnd) && negb (outcome_eqb thn Absent) then 1 else 0)
@@ -134,7 +152,7 @@ Definition txn_ok (cnd thn rb : outcome) (evs : list ev) (res : result) : bool :
   (* rollback is told whether cond failed; its context cannot be interrupted *)
   && forallb (fun e => match who e with
                        | SRollback => Bool.eqb (flag e) (failed cnd)
-                                      && negb (c_entry e) && negb (c_exit e)
+                                      && negb (c_entry e) && (is_ttl ca || negb (c_exit e))
                                       && kind_eqb (kind e) Detached
                        | SThen => kind_eqb (kind e) (if outcome_eqb rb Absent then Detached else Derived)
                        | SCond => kind_eqb (kind e) Derived
@@ -151,15 +169,15 @@ Definition txn_ok (cnd thn rb : outcome) (evs : list ev) (res : result) : bool :
      | [] => false
      end.
 
-Definition pcr_ok (prep com rb : outcome) (evs : list ev) (res : result) : bool :=
+Definition pcr_ok (prep com rb : outcome) (ca : cause) (evs : list ev) (res : result) : bool :=
   Nat.eqb (count_step SCond evs) 1
   && Nat.eqb (count_step SThen evs) (if failed prep then 0 else 1)
   && Nat.eqb (count_step SRollback evs) (if negb (failed prep) && failed com then 1 else 0)
   && forallb (fun e => match who e with
-                       | SRollback => negb (c_entry e) && negb (c_exit e)
+                       | SRollback => negb (c_entry e) && (is_ttl ca || negb (c_exit e))
                        | _ => true end) evs
   && result_eqb res (if failed prep then RCondErr else if failed com then RThenErr else RNil).
 
 Definition ok (c : case) : bool :=
-  if is_pcr c then pcr_ok (c_cond c) (c_then c) (c_rb c) (obs_evs c) (obs_res c)
-  else txn_ok (c_cond c) (c_then c) (c_rb c) (obs_evs c) (obs_res c).
+  if is_pcr c then pcr_ok (c_cond c) (c_then c) (c_rb c) (c_cause c) (obs_evs c) (obs_res c)
+  else txn_ok (c_cond c) (c_then c) (c_rb c) (c_cause c) (obs_evs c) (obs_res c).
